@@ -78,6 +78,11 @@ Corpus ==
                              IfElse(Test(Attr(Var("h"), "k"), "defined", <<>>, FALSE), <<T(<<121>>)>>, <<T(<<110>>)>>),
                              IfElse(Test(Attr(Var("h"), "x"), "defined", <<>>, TRUE), <<T(<<121>>)>>, <<T(<<110>>)>>),
                              PrintS(Cond(Test(Attr(Var("nosuchvar"), "k"), "defined", <<>>, FALSE), LI(1), SP("s2", LI(2))))>>),
+    \* "is defined" / "is not defined" on what a callback or a filter chain gives: the callback runs, its failure is the render's
+    isdefcall |-> ("main" :> <<IfElse(Test(SP("s1", LI(1)), "defined", <<>>, FALSE), <<T(<<121>>)>>, <<T(<<110>>)>>),
+                               PrintS(Cond(Test(SF("s2", LI(2)), "defined", <<>>, TRUE), LI(1), LI(2))),
+                               Set("z", Cond(Test(Filt("upper", SF("s3", LS(<<97>>)), <<>>), "defined", <<>>, FALSE), LI(7), LI(8))), PrintS(Var("z")),
+                               For1("i", L12, <<If1(Test(SP("s4", Var("i")), "defined", <<>>, TRUE), <<T(<<45>>)>>)>>)>>),
     \* the spaceless tag around callbacks; a filter registered under the name spaceless is not what the tag uses
     spaceless |-> ("main" :> <<Spaceless(<<T(<<60, 97, 62, 32>>), PrintS(SP("s1", LI(1))), T(<<32, 60, 98, 62>>), PrintS(SF("s2", LS(<<60, 99, 62, 32, 60, 100, 62>>)))>>), PrintS(SP("s3", LI(2)))>>),
     deep    |-> ("main" :> <<Block("ob", <<For1("i", L12, <<If1(SP("s1", LB(TRUE)), <<Inc(LS(NT.t1))>>)>>)>>)>>)
@@ -120,6 +125,10 @@ Unresolved ==
     ignnestedfilter |-> [tp |-> ("main" :> <<T(<<97>>), Include(LS(NT.t1), Lit(Null), FALSE, FALSE, TRUE, FALSE), T(<<98>>)>>)
                           @@ ("t1" :> <<T(<<99>>), PrintS(Filt("nofilter", LI(1), <<>>))>>), err |-> "unknown"],
     defaultmask |-> [tp |-> ("main" :> <<T(<<97>>), PrintS(Filt("default", Call("nofn", <<>>), <<LS(<<100>>)>>))>>), err |-> "unknown"],
+    nofndef   |-> [tp |-> ("main" :> <<IfElse(Test(Call("nofn", <<>>), "defined", <<>>, FALSE), <<T(<<121>>)>>, <<T(<<110>>)>>)>>), err |-> "unknown"],
+    nofndefnot |-> [tp |-> ("main" :> <<T(<<97>>), PrintS(Cond(Test(Call("nofn", <<LI(1)>>), "defined", <<>>, TRUE), LI(1), LI(2)))>>), err |-> "unknown"],
+    nofilterdef |-> [tp |-> ("main" :> <<Set("z", Test(Filt("nofilter", LS(sX), <<>>), "defined", <<>>, FALSE)), T(sX)>>), err |-> "unknown"],
+    nofilterdefloop |-> [tp |-> ("main" :> <<For1("i", L12, <<If1(Test(Filt("upper", Filt("nofilter", Var("i"), <<>>), <<>>), "defined", <<>>, TRUE), <<T(sX)>>)>>)>>), err |-> "unknown"],
     inmacro   |-> [tp |-> ("main" :> <<Macro("mw", <<>>, <<PrintS(Call("nofn", <<>>))>>), PrintS(Call("mw", <<>>))>>), err |-> "unknown"]
   ]
 
@@ -142,7 +151,9 @@ LoaderLayouts == {"only", "front", "back", "chain"}
 Cases ==
     UNION {{[kind |-> "fault", s |-> name, id |-> p.id, nth |-> p.nth, fl |-> "", ly |-> "only"] : p \in Placements(name)} : name \in DOMAIN Corpus}
     \cup {[kind |-> "base", s |-> name, id |-> "", nth |-> 0, fl |-> "", ly |-> ly] : name \in DOMAIN Corpus, ly \in LoaderLayouts}
-    \cup UNION {{[kind |-> "loader", s |-> name, id |-> "", nth |-> 0, fl |-> t, ly |-> ly] : t \in Loaded(name), ly \in LoaderLayouts} : name \in DOMAIN Corpus}
+    \* ("fsdir": the loader is a file-system loader and the failing template is a directory of that name)
+    \cup UNION {{[kind |-> "loader", s |-> name, id |-> "", nth |-> 0, fl |-> t, ly |-> ly] : t \in Loaded(name), ly \in LoaderLayouts \cup {"fsdir"}} : name \in DOMAIN Corpus}
+    \cup {[kind |-> "base", s |-> name, id |-> "", nth |-> 0, fl |-> "", ly |-> "fsdir"] : name \in DOMAIN Corpus}
     \cup {[kind |-> "unresolved", s |-> name, id |-> "", nth |-> 0, fl |-> "", ly |-> ly] : name \in DOMAIN Unresolved, ly \in LoaderLayouts}
     \* a loader that served a template begins to fail for it (the engine reloads what has changed: auto-reload, time stamps):
     \* the render after that fails with the loader's error wherever the template is needed, and succeeds where it is not
@@ -157,7 +168,7 @@ RelRoutes == [ from    |-> <<From(LS(DotB), <<"mm">>, <<"mm">>), PrintS(Call("mm
                extends |-> <<Extends(LS(DotB)), Block("bb", <<T(sX)>>)>> ]
 RelTp(r) == ("pm" :> RelRoutes[r]) @@ ("pb" :> Lib \o <<T(<<112>>), Block("bb", <<T(<<100>>)>>)>>)
             @@ ("b" :> <<Macro("mm", <<Param("a")>>, <<T(<<82, 79, 79, 84>>)>>), T(<<114>>), Block("bb", <<T(<<101>>)>>)>>)
-RelCases == {[kind |-> "relfault", s |-> r, id |-> "", nth |-> 0, fl |-> fl, ly |-> ly] : r \in DOMAIN RelRoutes, fl \in {"", "pb"}, ly \in LoaderLayouts}
+RelCases == {[kind |-> "relfault", s |-> r, id |-> "", nth |-> 0, fl |-> fl, ly |-> ly] : r \in DOMAIN RelRoutes, fl \in {"", "pb"}, ly \in LoaderLayouts \cup {"fsdir"}}
 TpOf(c) == IF c.kind = "unresolved" THEN Unresolved[c.s].tp ELSE IF c.kind = "relfault" THEN RelTp(c.s) ELSE Corpus[c.s]
 EntryOf(c) == IF c.kind = "relfault" THEN "pm" ELSE "main"
 World(c) == MkWF(TpOf(c), {}, {}, [id |-> c.id, nth |-> c.nth], c.fl)
@@ -181,7 +192,7 @@ CaseOf(c) ==
      tags |-> {"kind:" \o c.kind, "s:" \o c.s} \cup (IF c.kind = "fault" THEN {"spy:" \o c.id} ELSE {}) \cup {"loaders:" \o c.ly},
      entry |-> EntryOf(c), ctx |-> Ctx,
      cfg |-> [faultid |-> c.id, faultnth |-> c.nth, faultload |-> c.fl, loader |-> TRUE, frontloader |-> c.ly = "front",
-              backloader |-> c.ly = "back", chainloader |-> c.ly = "chain", spynames |-> <<"range", "length">>,
+              backloader |-> c.ly = "back", chainloader |-> c.ly = "chain", fsloader |-> c.ly = "fsdir", spynames |-> <<"range", "length">>,
               spyfilternames |-> <<"spaceless">>],
      runs |-> {[label |-> (IF v.debug THEN "debug" ELSE "nodebug") \o "/" \o (IF v.writer = "" THEN "render" ELSE v.writer),
                 tp |-> Sources(TpOf(c), LMin), xcalls |-> [id \in {} |-> 0], debug |-> v.debug, writer |-> v.writer]
